@@ -31,8 +31,11 @@ Cmp(a, b) ==
 \*      strings whose lexicographic order is the numeric one)
 Nodes == { [kind |-> "node", flat |-> f, cum |-> c, name |-> n, obj |-> o, addr |-> a] :
              f \in {0 - 1, 1, 2}, c \in {0 - 2, 0 - 1, 1, 2}, n \in {1, 2}, o \in {1, 2}, a \in {0} }
-Edges == { [kind |-> "edge", w |-> w, src |-> s, dst |-> d, dobj |-> o] :
-             w \in {0 - 2, 0 - 1, 1, 2}, s \in {1, 2}, d \in {1, 2}, o \in {1, 2} }
+\* sobj / dobj: the object files of source and destination - nodes that print alike; two edges may be ordered one
+\* way by their sources and the other way by their destinations
+EdgesAll == { [kind |-> "edge", w |-> w, src |-> s, dst |-> d, dobj |-> o, sobj |-> so] :
+                w \in {0 - 2, 0 - 1, 1, 2}, s \in {1, 2}, d \in {1, 2}, o \in {1, 2}, so \in {1, 2} }
+Edges == { e \in EdgesAll : Tier # "thorough" \/ e.src = 1 \/ e.sobj = 1 }
 Tags  == { [kind |-> "tag", cum |-> c, flat |-> f, name |-> n] : c \in {0 - 1, 1, 2}, f \in {0 - 1, 0, 1}, n \in {1, 2, 3} }
 
 \* ---- key tuples: smaller tuple = earlier in the output.  The last components are the identity tie-break
@@ -40,7 +43,7 @@ Tags  == { [kind |-> "tag", cum |-> c, flat |-> f, name |-> n] : c \in {0 - 1, 1
 Key(e, order) ==
   CASE order = "flat"    -> <<0 - AbsI(e.flat), e.name, 0 - AbsI(e.cum), e.obj, e.addr, 0 - e.flat, 0 - e.cum>>
     [] order = "cum"     -> <<0 - AbsI(e.cum), e.name, 0 - AbsI(e.flat), e.obj, e.addr, 0 - e.cum, 0 - e.flat>>
-    [] order = "edges"   -> <<0 - AbsI(e.w), e.src, e.dst, 0 - e.w, e.dobj>>
+    [] order = "edges"   -> <<0 - AbsI(e.w), e.src, e.dst, 0 - e.w, e.sobj, e.dobj>>
     [] order = "tagscum" -> <<0 - AbsI(e.cum), 0 - AbsI(e.flat), e.name, 0 - e.cum, 0 - e.flat>>
     [] order = "tagsflat" -> <<0 - AbsI(e.flat), e.name, 0 - e.flat, 0 - AbsI(e.cum), 0 - e.cum>>
 \* the part of the key the documentation pins (the rest only has to be deterministic)
@@ -60,12 +63,12 @@ OrdersAll == {"flat", "cum", "edges", "tagscum", "tagsflat"}
 \* tags of one node have distinct names; edges of one listing have distinct (src, dst, dobj)
 Admissible(S, order) ==
   CASE order \in {"tagscum", "tagsflat"} -> \A a, b \in S : a # b => a.name # b.name
-    [] order = "edges" -> \A a, b \in S : a # b => <<a.src, a.dst, a.dobj>> # <<b.src, b.dst, b.dobj>>
+    [] order = "edges" -> \A a, b \in S : a # b => <<a.src, a.dst, a.dobj, a.sobj>> # <<b.src, b.dst, b.dobj, b.sobj>>
     [] OTHER -> \A a, b \in S : a # b => <<a.name, a.obj, a.addr>> # <<b.name, b.obj, b.addr>>
 Size == IF Tier = "thorough" THEN 3 ELSE 2
 SetsOf(o) == { S \in ({ {a, b} : a, b \in Domain(o) } \cup (IF Size >= 3 THEN { {a, b, c} : a, b, c \in Domain(o) } ELSE {})) :
                  Cardinality(S) >= 2 /\ Admissible(S, o) }
-GuardSets == { { [kind |-> "edge", w |-> 1, src |-> 1, dst |-> 1, dobj |-> 1], [kind |-> "edge", w |-> 0 - 1, src |-> 2, dst |-> 1, dobj |-> 1] } }
+GuardSets == { { [kind |-> "edge", w |-> 1, src |-> 1, dst |-> 1, dobj |-> 1, sobj |-> 1], [kind |-> "edge", w |-> 0 - 1, src |-> 2, dst |-> 1, dobj |-> 1, sobj |-> 1] } }
 
 VARIABLES order, set, arrival, output, pc
 vars == <<order, set, arrival, output, pc>>
